@@ -102,7 +102,7 @@ func c13Force(c *core.Ctx, r *core.Reporter) {
 		return
 	}
 	var rootCalls []ssa.CallInstruction
-	for _, f := range core.WithAnon(ep) {
+	for _, f := range c.Region(ep) { // the worker may be a literal or a function extracted from ExecutePlan
 		rootCalls = append(rootCalls, core.CallsTo(f, eps, false)...)
 	}
 	okFlag := len(rootCalls) == 1
@@ -206,7 +206,7 @@ func c13Dethunk(c *core.Ctx, r *core.Reporter) {
 			continue
 		}
 		thunk, m, l := false, false, false
-		core.Instrs(fn, func(in ssa.Instruction) {
+		c.RegionInstrs(fn, func(in ssa.Instruction) { // the function and helpers extracted from it
 			switch x := in.(type) {
 			case *ssa.TypeAssert:
 				switch x.AssertedType.String() {
@@ -219,8 +219,8 @@ func c13Dethunk(c *core.Ctx, r *core.Reporter) {
 				}
 			}
 		})
-		callsMap := len(core.CallsTo(fn, c.Func("", "dethunkMapDepthFirst"), false)) > 0
-		callsList := len(core.CallsTo(fn, c.Func("", "dethunkListDepthFirst"), false)) > 0
+		callsMap := len(c.RegionCallsTo(fn, c.Func("", "dethunkMapDepthFirst"))) > 0
+		callsList := len(c.RegionCallsTo(fn, c.Func("", "dethunkListDepthFirst"))) > 0
 		r.Check(thunk && m && l && callsMap && callsList, name, fn.Pos(),
 			"handles a thunk, a nested map and a nested list, recursing depth-first",
 			name+" no longer handles all of {thunk, map, list} with recursion into maps and lists: some deferred work of a mutation field stays unforced until after later fields ran")
